@@ -671,6 +671,65 @@ def gen_frames(rng):
     out.append("top update")
     return "\n".join(out) + "\n"
 
+def gen_wide(rng):
+    """Sizes past the inline capacities of the crate (`EntityReactors`: 6, reactor-type lists: 10): 7-12 reactors on one
+    hot entity / key, bundles of 9-14 triggers, long batches; small bodies so traces stay short."""
+    g = G(rng); out = []
+    g.ndefs = rng.randint(2, 3)
+    g.excl = [False] * g.ndefs
+    hotE = "e0"
+    hot = ["eev:%s:0" % hotE, "emut:%s:0" % hotE, "eins:%s:0" % hotE, "erem:%s:0" % hotE, "dsp:%s" % hotE, "bc:0", "res:0", "anyev:0", "mut:0", "rem:0"]
+    nT = 0
+    for d in range(g.ndefs):
+        runs = []
+        for _ in range(rng.randint(1, 2)):
+            sc = []
+            if rng.random() < 0.35:
+                x = rng.random()
+                if x < 0.3: sc.append("broadcast 1 %d" % g.newpid())
+                elif x < 0.5: sc.append("revoke t%d" % rng.randrange(6))
+                elif x < 0.65: sc.append("entevent e1 0 %d" % g.newpid())
+                elif x < 0.8: sc.append("despawn %s" % rng.choice(["e0", "e1", "s%d" % rng.randrange(8)]))
+                else: sc.append("run s%d" % rng.randrange(8))
+            runs.append(sc)
+        out.append("def 0 %d" % len(runs))
+        for sc in runs: out.append("run %d" % len(sc)); out += sc
+    setup = ["spawn", "spawn", "spawn", "insert e0 0 1", "insert e1 0 1"]
+    nreg = rng.randint(7, 12)
+    for i in range(nreg):
+        m = rng.choice("ppcrr")
+        if rng.random() < 0.2:
+            ts = [rng.choice(hot + ["eev:e1:0", "emut:e1:0", "bc:1", "eev:e2:1"]) for _ in range(rng.randint(9, 14))]
+        else:
+            ts = [rng.choice(hot) for _ in range(rng.randint(1, 3))]
+        if m == "r": nT += 1
+        setup.append("on %s %d %s" % (m, rng.randrange(g.ndefs), " ".join(ts)))
+    out.append("top acts %d" % len(setup)); out += setup
+    for _ in range(rng.randint(4, 9)):
+        x = rng.random()
+        if x < 0.55:
+            sc = []
+            for _ in range(rng.randint(1, 4) if rng.random() < 0.8 else rng.randint(8, 14)):
+                y = rng.random()
+                if y < 0.2: sc.append("entevent e0 0 %d" % g.newpid())
+                elif y < 0.35: sc.append("mutate e0 0 %d" % rng.randrange(3))
+                elif y < 0.45: sc.append("insert e0 0 %d" % rng.randrange(3))
+                elif y < 0.55: sc.append("broadcast 0 %d" % g.newpid())
+                elif y < 0.62: sc.append("resmut 0")
+                elif y < 0.7: sc.append("entevent e1 0 %d" % g.newpid())
+                elif y < 0.8 and nT: sc.append("revoke t%d" % rng.randrange(nT))
+                elif y < 0.86: sc.append("remove e0 0")
+                elif y < 0.9: sc.append("despawn %s" % rng.choice(["e0", "e1", "s%d" % rng.randrange(nreg)]))
+                elif y < 0.95: sc.append("with %s s%d %s" % (rng.choice("pcr"), rng.randrange(nreg), rng.choice(hot)))
+                else: sc.append("run s%d" % rng.randrange(nreg))
+            out.append("top acts %d" % len(sc)); out += sc
+        elif x < 0.7: out.append("top frameend")
+        elif x < 0.8: out.append("top wentevent e0 0 %d" % g.newpid())
+        elif x < 0.9: out.append("top wbroadcast 0 %d" % g.newpid())
+        else: out.append("top wdespawn %s" % rng.choice(["e0", "e1", "s%d" % rng.randrange(nreg)]))
+    out.append("top frameend")
+    return "\n".join(out) + "\n"
+
 def gen_visibility(rng):
     """C03/C04/C05: several listeners per event; bodies run other systems (probes) and send further events, so readers
     are sampled at every position of the tree while data entities are still alive."""
@@ -887,6 +946,7 @@ PROFILES = {
     "dsp": gen_dsp,
     "cascade": gen_cascade,
     "frames": gen_frames,
+    "wide": gen_wide,
     "appreact": gen_appreact,
     "deeprec": gen_deeprec,
     "access2": gen_access2,
